@@ -13,7 +13,7 @@ import smtlib
 
 
 def hx(s):
-    b = s.encode("latin1")
+    b = s.encode("latin1", errors="replace")
     return b.hex() if b else "-"
 
 
@@ -303,7 +303,8 @@ def plain_symbols(text):
 def rename_text(text, ren, model, markers=True):
     """The concrete script: every renamed symbol spelled as the reference printer spells it.  With markers, an
     (echo "@@<k>") follows every command so that the output can be cut into per-command segments even when it is not
-    an s-expression sequence.  Returns (concrete text, list of plain command s-expressions in order)."""
+    an s-expression sequence.  Returns (concrete text, the plain command s-expressions in order, the concrete
+    commands as (head, text) in the same order)."""
     cmds = smtlib.read_all(text)
 
     def spell(name):
@@ -346,9 +347,12 @@ def rename_text(text, ren, model, markers=True):
         return spell(ren.sort[s]) if s in ren.sort else s
 
     out = []
+    conc = []
     k = 0
     for c in cmds:
         if not isinstance(c, list) or not c:
+            conc.append(("", ""))
+            k += 1
             continue
         h = c[0]
         if h == "declare-sort":
@@ -366,10 +370,11 @@ def rename_text(text, ren, model, markers=True):
         else:
             line = smtlib.sx_str(c)
         out.append(line)
+        conc.append((h, line))
         if markers and h not in ("exit",):
             out.append('(echo "@@%d")' % k)
         k += 1
-    return "\n".join(out) + "\n", cmds
+    return "\n".join(out) + "\n", cmds, conc
 
 
 def split_segments(stdout, ncmds):
